@@ -42,6 +42,8 @@ type srPt struct {
 	Cts   []string        `json:"cts"`
 	Ch    srR             `json:"ch"`
 	V     srOp            `json:"v"`
+	T     string          `json:"t"`
+	Form  string          `json:"form"`
 }
 
 type srPoint struct {
@@ -68,6 +70,14 @@ type SE struct{}
 
 func (SE) String() string { return "" }
 func (SE) Error() string  { return "" }
+
+type PE struct{}
+
+func (*PE) Error() string { return "" }
+
+type WE struct{}
+
+func (WE) Error(int) string { return "" }
 
 type Stringer interface{ String() string }
 
@@ -122,6 +132,11 @@ func (p srPoint) stmt() string {
 		return "switch " + p.xop().Src + ".(type) {\ncase " + strings.Join(e.Cts, ", ") + ":\ng0()\n}"
 	case "send":
 		return e.Ch.Src + " <- " + e.V.Src
+	case "assert":
+		if e.Form == "commaok" {
+			return "_, _ = " + p.xop().Src + ".(" + e.T + ")"
+		}
+		return "_ = " + p.xop().Src + ".(" + e.T + ")"
 	case "incdec":
 		return p.xop().Src + "++"
 	}
@@ -158,6 +173,8 @@ func (p srPoint) class() string {
 		return "type-switch/" + p.xop().Ty + "/cases{" + strings.Join(e.Cts, ",") + "}"
 	case "send":
 		return "send/" + e.Ch.Kind + "/" + opc(e.V)
+	case "assert":
+		return "type-assertion/" + e.Form + "/" + p.xop().Ty + ".(" + e.T + ")"
 	case "incdec":
 		return "incdec/" + p.xop().Ty
 	}
@@ -177,6 +194,8 @@ func (p srPoint) coarse() string {
 		return "type-switch/" + p.xop().Ty
 	case "send":
 		return "send/" + e.Ch.Kind
+	case "assert":
+		return "type-assertion/" + p.xop().Ty
 	}
 	return p.class()
 }
@@ -248,16 +267,27 @@ func newSrWorld() *srWorld {
 	par := func(t types.Type) *types.Var { return types.NewParam(token.NoPos, pkg.Types, "", t) }
 	w.tys["MyBool"] = pkg.NewType("MyBool").InitType(pkg, tb)
 	w.tys["MyInt"] = pkg.NewType("MyInt").InitType(pkg, ti)
+	// a method name: "M" value receiver, "*M" pointer receiver, "M(int)" with an int parameter
 	mk := func(name string, methods ...string) types.Type {
 		t := pkg.NewType(name).InitType(pkg, types.NewStruct(nil, nil))
 		for _, m := range methods {
-			pkg.NewFunc(par(t), m, nil, types.NewTuple(par(ts)), false).BodyStart(pkg).Val("").Return(1).End()
+			recv, params := types.Type(t), (*types.Tuple)(nil)
+			if strings.HasPrefix(m, "*") {
+				recv, m = types.NewPointer(t), m[1:]
+			}
+			if strings.HasSuffix(m, "(int)") {
+				params, m = types.NewTuple(par(ti)), strings.TrimSuffix(m, "(int)")
+			}
+			pkg.NewFunc(par(recv), m, params, types.NewTuple(par(ts)), false).BodyStart(pkg).Val("").Return(1).End()
 		}
 		return t
 	}
 	w.tys["S"] = mk("S", "String")
 	w.tys["MyErr"] = mk("MyErr", "Error")
 	w.tys["SE"] = mk("SE", "String", "Error")
+	w.tys["PE"] = mk("PE", "*Error")
+	w.tys["*PE"] = types.NewPointer(w.tys["PE"])
+	w.tys["WE"] = mk("WE", "Error(int)")
 	strM := types.NewFunc(token.NoPos, pkg.Types, "String", types.NewSignatureType(nil, nil, nil, nil, types.NewTuple(par(ts)), false))
 	w.tys["Stringer"] = pkg.NewType("Stringer").InitType(pkg, types.NewInterfaceType([]*types.Func{strM}, nil).Complete())
 	w.tys["error"] = types.Universe.Lookup("error").Type()
@@ -384,6 +414,16 @@ func (w *srWorld) build(p srPoint) (rejected bool, msg, fault string) {
 		cb.Val(obj(e.Ch.Src))
 		w.push(cb, e.V)
 		cb.Send()
+	case "assert":
+		if e.Form == "commaok" {
+			cb.VarRef(nil).VarRef(nil)
+			w.push(cb, p.xop())
+			cb.TypeAssert(w.tys[e.T], 2).Assign(2, 1)
+		} else {
+			cb.VarRef(nil)
+			w.push(cb, p.xop())
+			cb.TypeAssert(w.tys[e.T], 0).Assign(1)
+		}
 	case "incdec":
 		cb.VarRef(obj(p.xop().Src)).IncDec(token.INC)
 	default:
@@ -398,7 +438,7 @@ func (w *srWorld) build(p srPoint) (rejected bool, msg, fault string) {
 
 func srRun(run *ev.Run, prop string) (int64, int64, int64) {
 	var pts []srPoint
-	res, err := tlc.Run(tlc.Opts{SpecDir: SpecDir, Module: "StmtRules", Cfg: "INIT Init\nNEXT Next\nINVARIANTS Monotone Emit\nCHECK_DEADLOCK FALSE\n", Workers: 2, Timeout: 10 * time.Minute,
+	res, err := tlc.Run(tlc.Opts{SpecDir: SpecDir, Module: "StmtRules", Cfg: "INIT Init\nNEXT Next\nINVARIANTS Monotone AssertIsCase Emit\nCHECK_DEADLOCK FALSE\n", Workers: 2, Timeout: 10 * time.Minute,
 		OnJSON: func(l string) {
 			var p srPoint
 			if json.Unmarshal([]byte(l), &p) == nil && p.Pt.Kind != "" {
@@ -415,7 +455,7 @@ func srRun(run *ev.Run, prop string) (int64, int64, int64) {
 		run.Infra(fmt.Errorf("StmtRules.tla: %d points received, %d states", len(pts), res.Distinct))
 	}
 	srCheck(run, pts, prop)
-	run.Set("statement_head_points", fmt.Sprintf("%d points of StmtRules.tla (conditions, switch cases, range, type switch, send, inc/dec)", len(pts)))
+	run.Set("statement_head_points", fmt.Sprintf("%d points of StmtRules.tla (conditions, switch cases, range, type switch, type assertion, send, inc/dec)", len(pts)))
 	return res.Distinct, res.Generated, int64(len(pts))
 }
 
